@@ -2,6 +2,7 @@ package main
 
 import (
 	"fmt"
+	"math/bits"
 
 	bgvlt "github.com/tuneinsight/lattigo/v6/circuits/bgv/lintrans"
 	"github.com/tuneinsight/lattigo/v6/circuits/common/lintrans"
@@ -63,6 +64,7 @@ func bgvAdapter(w *circ.BGV) *adapter[uint64] {
 	t := w.T
 	p := w.Params
 	n := p.MaxSlots() / 2
+	bigT := t > 1<<32 // plaintext modulus above 2^32
 	a := &adapter[uint64]{
 		scheme: "bgv", world: w.Spec.String(), params: p.Parameters, rows: 2, n: n, logN: p.LogMaxSlots() - 1,
 		maxLevel: p.MaxLevel(), maxLvlP: p.MaxLevelP(), sk: w.Sk,
@@ -76,6 +78,9 @@ func bgvAdapter(w *circ.BGV) *adapter[uint64] {
 		v := make([]uint64, 2*n)
 		for i := range v {
 			v[i] = (2 + 3*uint64(i)) % t
+			if bigT && i%2 == 1 {
+				v[i] = t - 1 - 3*uint64(i) // large residues too
+			}
 		}
 		return v
 	}
@@ -91,16 +96,34 @@ func bgvAdapter(w *circ.BGV) *adapter[uint64] {
 		return d
 	}
 	a.ctScale = func(alt bool) rlwe.Scale {
-		if alt {
+		switch {
+		case bigT && alt:
+			return rlwe.NewScaleModT(uint64(1<<32+7), t)
+		case bigT:
+			// plaintext modulus above 2^32: scales are LARGE residues in every leaf (their product exceeds 2^64 as integers)
+			return rlwe.NewScaleModT(t-1, t)
+		case alt:
 			return rlwe.NewScaleModT(5, t)
 		}
 		return p.DefaultScale()
 	}
 	a.ltScale = func(alt bool) rlwe.Scale {
-		if alt {
+		switch {
+		case bigT && alt:
+			return rlwe.NewScaleModT(uint64(1<<32), t)
+		case bigT:
+			return rlwe.NewScaleModT(t-2, t)
+		case alt:
 			return rlwe.NewScaleModT(3, t)
 		}
 		return p.DefaultScale()
+	}
+	if bigT {
+		// noise budget of one product: about 2 log2(t) + log2(N) + 14 bits; levels below are out of scope
+		need := 2*bits.Len64(t) + p.LogN() + 14
+		logQ := func(level int) int { return p.RingQ().ModulusAtLevel[level].BitLen() }
+		for a.minEvalLevel = 1; logQ(a.minEvalLevel) < need+2 && a.minEvalLevel < p.MaxLevel(); a.minEvalLevel++ {
+		}
 	}
 	a.encrypt = func(v []uint64, level int, scale rlwe.Scale) *rlwe.Ciphertext {
 		return w.Encrypt(v, level, scale.Uint64())
